@@ -74,7 +74,7 @@ func unmarshal(buf *bufio.Reader, packet interface{}) (n int64, err error) {
 			var length byte
 			if length, err = buf.ReadByte(); err == nil {
 				*field = make([]byte, length)
-				_, err = buf.Read(*field)
+				err = readFull(buf, *field)
 			}
 		case io.ReaderFrom:
 			_, err = field.ReadFrom(buf)
@@ -187,6 +187,16 @@ func countsSeptets(dcs byte) bool {
 		return dcs&0b100 == 0
 	}
 	return true
+}
+
+// readFull fills p from r across short reads. As with a single Read from a buffer
+// that already holds the whole TPDU, octets missing at the end of the stream stay zero
+// and only an empty stream is an error.
+func readFull(r io.Reader, p []byte) (err error) {
+	if _, err = io.ReadFull(r, p); err == io.ErrUnexpectedEOF {
+		err = nil
+	}
+	return
 }
 
 func getType(buf *bufio.Reader) (kind MessageType, failure bool, err error) {
